@@ -80,3 +80,9 @@ def cases(tier, seed, ctx=None):
     for n in (1, 2, 3):
         for after in (0, 1):
             yield ("tls", [4, n, after], "destroyed-mid-handshake")
+    # a well-formed TLS client that does not meet the configuration (client certificate demanded / TLS 1.3 only): no handshake, no routing
+    for cfg in (4, 5):
+        for rq in (b"GET /a HTTP/1.1\r\nHost: h\r\n\r\n", b"POST /p HTTP/1.1\r\nContent-Length: 2\r\n\r\nhi"):
+            yield ("tls", [5, cfg, rq], "unwelcome-tls-client")
+    # a response of several MiB that is closed at once (most of it still pending at close()): the same bytes over TLS as over plain TCP
+    yield ("tls", [1, b"GET /big HTTP/1.1\r\nHost: h\r\n\r\n", 5], "big-response")
